@@ -222,6 +222,13 @@ func offStatementVariants(st *Step) []variant {
 		{"line_comment", st.Pre + "-- c\n" + ref(st, ".") + st.Post},
 		{"leading_comment", "/* c */ " + st.Text},
 		{"lone_cr", strings.Replace(st.Pre, " ", "\r", 1) + ref(st, ".") + st.Post},
+		// comment introducers inside quoted identifiers and string literals are not comments
+		{"quoted_alias_dashes", strings.Replace(st.Pre, "*", `count(*) AS "k--v"`, 1) + ref(st, ".") + st.Post},
+		{"quoted_alias_slashes", strings.Replace(st.Pre, "*", `count(*) AS "k//v"`, 1) + ref(st, ".") + st.Post},
+		{"quoted_alias_block_open", strings.Replace(st.Pre, "*", `count(*) AS "k/*v"`, 1) + ref(st, ".") + st.Post},
+		{"quoted_alias_dash_then_comment", strings.Replace(st.Pre, "*", `count(*) AS "dc-1"`, 1) + "/* c */ " + ref(st, ".") + st.Post},
+		{"string_literal_dashes", st.Text + " WHERE key = 'a--b'"},
+		{"string_literal_block_open", st.Text + " WHERE key = 'x/*y' AND key = '*/'"},
 	}
 }
 
